@@ -137,17 +137,28 @@ structure Live where
   atts : List (String × Val)
   deriving Repr, Inhabited
 
-structure St where
-  tcs : List Tc := []
-  live : List Live := []
-  fb : List String := []       -- resources with a flow rule of threshold 0 (every entry blocked by the flow slot)
-  deriving Repr, Inhabited
-
 inductive Res where
   | pass
   | blockFlow
   | blockHot
-  deriving DecidableEq, Repr
+  deriving DecidableEq, Repr, Inhabited
+
+/-- an `api.Entry` call of another goroutine that has run the rule-check slots and is parked at the yield point
+    `chain.between-check-and-stat` (its statistic slots have not run yet) -/
+structure Pend where
+  id : String
+  res : String
+  args : List Val
+  atts : List (String × Val)
+  verdict : Res
+  deriving Repr, Inhabited
+
+structure St where
+  tcs : List Tc := []
+  live : List Live := []
+  fb : List String := []       -- resources with a flow rule of threshold 0 (every entry blocked by the flow slot)
+  pend : List Pend := []
+  deriving Repr, Inhabited
 
 /-- `hotspot.ClearRules(); hotspot.LoadRules(rules)`: fresh controllers for the valid rules -/
 def load (s : St) (rules : List Rule) : St :=
@@ -170,17 +181,50 @@ def exit (s : St) (id : String) : St :=
     { s with tcs := s.tcs.map (fun t => t.bump e.res e.args e.atts (-1)),
              live := s.live.eraseP (fun e => e.id == id) }
 
+/-! ## schedules: `api.Entry` in two steps
+
+Between goroutines the only interleaving that matters for the cells is at the yield point between the rule-check
+loop and the statistic loop of `SlotChain.Entry` (each cache operation is under the cache's lock, each counter
+update is one atomic add): `check` is the first half (flow slot, hotspot slot: cells touched, verdict fixed), `commit`
+the second (`OnEntryPassed`: `+1` when the verdict was pass).  A sequential `entry` is `check` immediately followed by
+`commit` (`entry_eq_check_commit`); a schedule is any interleaving of `check`/`commit`/`exit` steps. -/
+
+def check (s : St) (id res : String) (args : List Val) (atts : List (String × Val)) : St :=
+  if s.fb.contains res then
+    { s with pend := { id := id, res := res, args := args, atts := atts, verdict := Res.blockFlow } :: s.pend }
+  else
+    let r := checkTcs res args atts s.tcs
+    { s with tcs := r.1,
+             pend := { id := id, res := res, args := args, atts := atts,
+                       verdict := if r.2 then Res.blockHot else Res.pass } :: s.pend }
+
+def commit (s : St) (id : String) : St × Option Res :=
+  match s.pend.find? (fun p => p.id == id) with
+  | none => (s, none)
+  | some p =>
+    if p.verdict = Res.pass then
+      ({ s with tcs := s.tcs.map (fun t => t.bump p.res p.args p.atts 1),
+                live := { id := p.id, res := p.res, args := p.args, atts := p.atts } :: s.live,
+                pend := s.pend.eraseP (fun p => p.id == id) }, some Res.pass)
+    else ({ s with pend := s.pend.eraseP (fun p => p.id == id) }, some p.verdict)
+
 /-- the op language of the correspondence driver, as data (what the theorems quantify over) -/
 inductive Op where
   | entry (id res : String) (args : List Val) (atts : List (String × Val))
   | exit (id : String)
   | flowBlock (res : String)
+  | check (id res : String) (args : List Val) (atts : List (String × Val))
+  | commit (id : String)
   deriving Repr
 
+/-- is the id in use (alive or parked)?  Re-using it is not a well-formed op (the drivers answer `bad-op`) -/
+def St.used (s : St) (id : String) : Bool := s.live.any (fun e => e.id == id) || s.pend.any (fun p => p.id == id)
+
 def step (s : St) : Op → St
+  | .check id res args atts => if s.used id then s else check s id res args atts
+  | .commit id => (commit s id).1
   | .entry id res args atts =>
-    -- an entry id that is still alive is not a well-formed op (the drivers answer `bad-op`)
-    if s.live.any (fun e => e.id == id) then s else (entry s id res args atts).1
+    if s.used id then s else (entry s id res args atts).1
   | .exit id => exit s id
   | .flowBlock res => { s with fb := res :: s.fb }
 
@@ -200,8 +244,10 @@ def entryAliased (s : St) (id res : String) (args : List Val) (atts : List (Stri
   entry s' id res args atts
 
 def stepAliased (s : St) : Op → St
+  | .check _ _ _ _ => s
+  | .commit _ => s
   | .entry id res args atts =>
-    if s.live.any (fun e => e.id == id) then s else (entryAliased s id res args atts).1
+    if s.used id then s else (entryAliased s id res args atts).1
   | .exit id => exit s id
   | .flowBlock res => { s with fb := res :: s.fb }
 
